@@ -178,6 +178,23 @@ theorem tight_vecDrop {c : Cfg} {m : Mach} {b : Blk} {R : List Blk}
   · exact tight_remove_empty t ‹_›
   · exact tight_dealloc t hb hdl
 
+@[simp] theorem vecDrop_oracle (c : Cfg) (m : Mach) (v : PVec) : (vecDrop c m v).oracle = m.oracle := by
+  unfold vecDrop; split <;> simp
+
+@[simp] theorem vecResize_oracle (c : Cfg) (m : Mach) (v : PVec) (n : Nat) (b : UInt8) :
+    (vecResize c m v n b).1.oracle = m.oracle := by
+  unfold vecResize; split
+  · rfl
+  split
+  · rfl
+  · simp
+
+@[simp] theorem vecClone_oracle (c : Cfg) (m : Mach) (v : PVec) : (vecClone c m v).1.oracle = m.oracle := by
+  unfold vecClone; split <;> simp
+
+@[simp] theorem newBytes_oracle (c : Cfg) (m : Mach) : (newBytes c m).1.oracle = m.oracle := by
+  unfold newBytes; split <;> simp
+
 theorem growCap_ge (cap n : Nat) : n ≤ growCap cap n ∧ 0 < growCap cap n := by
   unfold growCap; omega
 
